@@ -613,7 +613,7 @@ def compare(case, i, line, ir, mr):
                     a, kw = proto.dec(calls[k][1]), proto.dec(calls[k][2])
                     f = make_fn(sig_dec(proto.parse(line)[2]))
                     return isinstance(res_val(lambda: f(*unmark(a), **unmark(kw))), tuple)
-                if any(failing(k) for k in range(j + 1)):
+                if failing(j):       # the counts part ON a raising / invalid call (a difference that first shows on a non-raising call is a violation, whatever came before)
                     return ('divergence', 'executions of a raising function differ (not pinned by the property): implementation %s, model %s' % (ir, mr))
         except Exception:
             pass
@@ -667,6 +667,46 @@ def ref_key(args, kw):
     return (h(list(args)), h(dict(kw)))
 
 
+def ref_stack(ds, f, sig, args, kw):
+    """what the DOCUMENTED behaviour of a stack gives on a call with scalar arguments, written independently of the library:
+    the constructor keeps the outermost occurrence of a class; try_* catch, cache / pd2np pass scalars through, and the two
+    registered deviations: kwargs_support drops every keyword that is not a parameter name (K1 when f has **kw), loops with a
+    first argument pops a keyword called `axis` (K4).  Returns (result or ('!raised', kind), set of deviations that changed the call)"""
+    params = sig[0]
+    layers = []
+    for c, p in ds:                       # ds[0] is the innermost
+        layers = [(c2, p2) for c2, p2 in layers if c2 != c]
+        layers.append((c, p))
+    used = set()
+
+    def ev(ls, a, k):
+        if not ls:
+            return res_val(lambda: f(*a, **k))
+        (c, p), rest = ls[-1], ls[:-1]
+        if c == 'kwargs_support':
+            k2 = {n: v for n, v in k.items() if n in params}
+            if len(k2) != len(k) and sig[3]:
+                used.add('K1')
+            return ev(rest, a, k2)
+        if c == 'loops':
+            if a or (params and params[0] in k):
+                k2 = dict(k)
+                a2 = list(a) if a else [k2.pop(params[0])]
+                if 'axis' in k2:
+                    k2.pop('axis')
+                    used.add('K4')
+                return ev(rest, a2, k2)
+            return ev(rest, a, k)
+        r = ev(rest, a, k)
+        raised = isinstance(r, tuple) and len(r) == 2 and r[0] == '!raised'
+        if c == 'try_value' and raised and p.get('return_value', True):
+            return copy.copy(p.get('value'))
+        if c == 'try_back' and raised:
+            return first_arg(sig, a, k)
+        return r
+    return ev(layers, list(args), dict(kw)), used
+
+
 def laws(rng, tier, ctx):
     import pyg_base
     from pyg_base import getcallargs, call_with_callargs, getargspec
@@ -705,7 +745,13 @@ def laws(rng, tier, ctx):
                 yield Finding('violation', dict(tag='law-spec', lines=[line]), 'getargspec(W(f)) differs from the specification of f')
             got = res_val(lambda: g(*copy.deepcopy(args), **copy.deepcopy(kw)))
             if got != direct:
-                yield Finding('violation', dict(tag='law-transparent', lines=[line]),
+                # a known finding is recognised only when the reply IS what the documented deviation predicts (K1: f without the
+                # undeclared keywords, K4: f without the keyword `axis`); any other wrong reply on such a line stays a plain violation
+                pred, used = ref_stack(ds, f, sig, args, kw)
+                tag = 'law-transparent'
+                if used and got == pred:
+                    tag = 'law-transparent known:' + '+'.join(sorted(used))
+                yield Finding('violation', dict(tag=tag, lines=[line]),
                               'decorated call gives %r, f gives %r' % (got, direct))
     # (2b) arguments that are not scalars: int / float ndarrays (also inside a list), namedtuples, lists, dicts - through every single
     # decorator and random stacks.  pd2np turns int arrays into float arrays before calling f (documented: "will also convert int
@@ -882,24 +928,29 @@ def laws(rng, tier, ctx):
         Counter.n = 0
         seen = {}
         failing = []
+        k5_only = True
         for call in sx[3][1:]:
             wa, wk = proto.dec(call[1]), proto.dec(call[2])
             args, kw = unmark(wa), unmark(wk)
             key = ref_key(wa, wk)            # marker strings: a set / an array is the same argument iff it is spelt the same
             before = Counter.n
             got = mark(c(*args, **kw))
+            after = Counter.n
             count += 1
+            fresh = after == before + 1 and got == mark(f(*args, **kw))          # evaluated once more, the reply is f's
+            Counter.n = after
             if key in seen:
-                good = Counter.n == before and got == seen[key]
+                good = after == before and got == seen[key]
             else:
-                good = Counter.n == before + 1 and got == mark(f(*args, **kw))
-                Counter.n = before + 1
+                good = fresh
                 seen[key] = got
             if not good:
                 failing.append((wa, wk))
+                k5_only = k5_only and has_arr((wa, wk)) and fresh
         if failing:
-            # K5: the only calls that fail are repeated calls with an ndarray argument (evaluated again, by design)
-            k5 = all(has_arr(x) for x in failing)
+            # K5: the only calls that fail are repeated calls with an ndarray argument that were evaluated once more and answered
+            # with what f returns (by design); a wrong reply or another number of evaluations on such a call is NOT K5
+            k5 = k5_only
             yield Finding('violation', dict(case, tag='law-cache-ndarray' if k5 else 'law-cache'),
                           'cached function does not evaluate once per distinct combination / return the first result: %s' % enc(list(failing[0])))
     yield count
@@ -917,14 +968,21 @@ def line_is_k4(line):
     return 'axis' in kw and (len(args) > 0 or (params and params[0] in kw))
 
 
+def _known_tag(f, kid):
+    """law (2) tags a finding `law-transparent known:K1+K4` only when the decorated call returned exactly what the documented
+    deviation predicts (`ref_stack`); the shape of the line is checked as well"""
+    tag = f.case.get('tag') or ''
+    return f.kind == 'violation' and tag.startswith('law-transparent known:') and kid in tag[len('law-transparent known:'):].split('+')
+
+
 def _k4(f):
     lines = f.case.get('lines') or []
-    return bool(lines) and f.case.get('tag') == 'law-transparent' and line_is_k4(lines[-1])
+    return bool(lines) and _known_tag(f, 'K4') and line_is_k4(lines[-1])
 
 
 def _k1(f):
     lines = f.case.get('lines') or []
-    return bool(lines) and all(line_is_k1(l) for l in lines[-1:]) and ('stack' in f.case.get('tag', '') or f.case.get('tag') == 'law-transparent')
+    return bool(lines) and _known_tag(f, 'K1') and line_is_k1(lines[-1])
 
 
 def _k6(f):
